@@ -20,19 +20,145 @@ import (
 
 // Entry is one journaled mutation.
 type Entry struct {
-	Op    string // "put", "delete", "sync"
+	Store string // name of the store within its group
+	Op    string // "put", "delete", "sync", "destroy"
 	Key   string
 	Value []byte
 	Batch int // >0: part of batch commit number Batch
 }
 
+// Group is a set of named stores sharing one journal (one global order of writes), so that a
+// crash instant is consistent across several datastores (factory-mode keystore: meta + slots).
+type Group struct {
+	mu      gosync.Mutex
+	journal []Entry
+	stores  map[string]*Store
+	batches int
+}
+
+// NewGroup creates an empty group.
+func NewGroup() *Group { return &Group{stores: map[string]*Store{}} }
+
+// Open returns the named store, creating it (empty) if needed.
+func (g *Group) Open(name string) *Store {
+	g.mu.Lock()
+	defer g.mu.Unlock()
+	if s, ok := g.stores[name]; ok {
+		s.closed = false
+		return s
+	}
+	s := &Store{m: map[string][]byte{}, g: g, name: name}
+	g.stores[name] = s
+	return s
+}
+
+// Destroy removes the named store and its contents (journaled, treated as immediately durable).
+func (g *Group) Destroy(name string) {
+	g.mu.Lock()
+	defer g.mu.Unlock()
+	if s, ok := g.stores[name]; ok {
+		s.m = map[string][]byte{}
+		delete(g.stores, name)
+	}
+	g.journal = append(g.journal, Entry{Store: name, Op: "destroy"})
+}
+
+// Names lists the existing stores.
+func (g *Group) Names() []string {
+	g.mu.Lock()
+	defer g.mu.Unlock()
+	var out []string
+	for n := range g.stores {
+		out = append(out, n)
+	}
+	sort.Strings(out)
+	return out
+}
+
+// Journal returns a copy of the group's journal.
+func (g *Group) Journal() []Entry {
+	g.mu.Lock()
+	defer g.mu.Unlock()
+	return append([]Entry(nil), g.journal...)
+}
+
+// JournalLen is the number of journal entries so far.
+func (g *Group) JournalLen() int {
+	g.mu.Lock()
+	defer g.mu.Unlock()
+	return len(g.journal)
+}
+
+func under(key, prefix string) bool {
+	if prefix == "" || prefix == "/" {
+		return true
+	}
+	return key == prefix || strings.HasPrefix(key, prefix+"/")
+}
+
+// Pending returns, per store, the indices (< t) of journaled writes that are not yet durable
+// at journal instant t. Crash model (ordered write-ahead log per store): a Sync on a store,
+// whatever its prefix, makes every earlier write of that store durable; at a crash each store
+// independently loses a suffix of its pending writes. Destroy entries are durable at once.
+func Pending(journal []Entry, t int) map[string][]int {
+	out := map[string][]int{}
+	for i := 0; i < t; i++ {
+		e := journal[i]
+		switch e.Op {
+		case "put", "delete":
+			out[e.Store] = append(out[e.Store], i)
+		case "sync":
+			delete(out, e.Store)
+		case "destroy":
+			delete(out, e.Store)
+		}
+	}
+	return out
+}
+
+// CrashImage builds the group as found after a crash at journal instant t in which exactly the
+// pending writes listed in lost did not reach the disk (every durable write and every other
+// pending write did). The image has an empty journal and no hooks.
+func CrashImage(journal []Entry, t int, lost map[int]bool) *Group {
+	g := NewGroup()
+	for i := 0; i < t; i++ {
+		e := journal[i]
+		if lost[i] {
+			continue
+		}
+		switch e.Op {
+		case "put":
+			g.Open(e.Store).m[e.Key] = append([]byte(nil), e.Value...)
+		case "delete":
+			if s, ok := g.stores[e.Store]; ok {
+				delete(s.m, e.Key)
+			}
+		case "destroy":
+			delete(g.stores, e.Store)
+		}
+	}
+	return g
+}
+
+// Dump renders every store of the group canonically.
+func (g *Group) Dump() string {
+	var sb strings.Builder
+	for _, n := range g.Names() {
+		g.mu.Lock()
+		s := g.stores[n]
+		g.mu.Unlock()
+		fmt.Fprintf(&sb, "[%s]%s", n, s.Dump())
+	}
+	return sb.String()
+}
+
 // Store implements ds.Batching.
 type Store struct {
-	mu      gosync.Mutex
-	m       map[string][]byte
-	journal []Entry
-	batches int
-	closed  bool
+	mu     gosync.Mutex
+	m      map[string][]byte
+	g      *Group
+	name   string
+	closed bool
 	// Hook, if set, is called before every operation, outside the store's lock. A non-nil
 	// error is returned to the caller and the operation has no effect.
 	Hook func(op, key string) error
@@ -50,7 +176,18 @@ var _ ds.Batching = (*Store)(nil)
 // ErrInjected is what fault-injecting hooks return.
 var ErrInjected = errors.New("jds: injected datastore error")
 
-func New() *Store { return &Store{m: map[string][]byte{}} }
+// New creates a store in a group of its own.
+func New() *Store { return NewGroup().Open("") }
+
+// Group returns the group the store belongs to.
+func (s *Store) Group() *Group { return s.g }
+
+func (s *Store) log(e Entry) {
+	e.Store = s.name
+	s.g.mu.Lock()
+	s.g.journal = append(s.g.journal, e)
+	s.g.mu.Unlock()
+}
 
 func (s *Store) pre(op, key string) error {
 	s.mu.Lock()
@@ -77,7 +214,7 @@ func (s *Store) Put(ctx context.Context, key ds.Key, value []byte) error {
 	defer s.mu.Unlock()
 	v := append([]byte(nil), value...)
 	s.m[key.String()] = v
-	s.journal = append(s.journal, Entry{Op: "put", Key: key.String(), Value: v})
+	s.log(Entry{Op: "put", Key: key.String(), Value: v})
 	return nil
 }
 
@@ -88,7 +225,7 @@ func (s *Store) Delete(ctx context.Context, key ds.Key) error {
 	s.mu.Lock()
 	defer s.mu.Unlock()
 	delete(s.m, key.String())
-	s.journal = append(s.journal, Entry{Op: "delete", Key: key.String()})
+	s.log(Entry{Op: "delete", Key: key.String()})
 	return nil
 }
 
@@ -98,7 +235,7 @@ func (s *Store) Sync(ctx context.Context, prefix ds.Key) error {
 	}
 	s.mu.Lock()
 	defer s.mu.Unlock()
-	s.journal = append(s.journal, Entry{Op: "sync", Key: prefix.String()})
+	s.log(Entry{Op: "sync", Key: prefix.String()})
 	return nil
 }
 
@@ -209,48 +346,28 @@ func (b *batch) Commit(ctx context.Context) error {
 	s := b.s
 	s.mu.Lock()
 	defer s.mu.Unlock()
-	s.batches++
+	s.g.mu.Lock()
+	s.g.batches++
+	bn := s.g.batches
+	s.g.mu.Unlock()
 	for _, op := range b.ops {
 		if op.del {
 			delete(s.m, op.key)
-			s.journal = append(s.journal, Entry{Op: "delete", Key: op.key, Batch: s.batches})
+			s.log(Entry{Op: "delete", Key: op.key, Batch: bn})
 		} else {
 			s.m[op.key] = op.value
-			s.journal = append(s.journal, Entry{Op: "put", Key: op.key, Value: op.value, Batch: s.batches})
+			s.log(Entry{Op: "put", Key: op.key, Value: op.value, Batch: bn})
 		}
 	}
 	b.ops = nil
 	return nil
 }
 
-// Journal returns a copy of the journal.
-func (s *Store) Journal() []Entry {
-	s.mu.Lock()
-	defer s.mu.Unlock()
-	return append([]Entry(nil), s.journal...)
-}
+// Journal returns a copy of the group's journal.
+func (s *Store) Journal() []Entry { return s.g.Journal() }
 
-// JournalLen is the number of journaled mutations so far.
-func (s *Store) JournalLen() int {
-	s.mu.Lock()
-	defer s.mu.Unlock()
-	return len(s.journal)
-}
-
-// Rebuild returns a new store holding exactly the effect of journal[0:n] (no hook, empty journal
-// except that the replayed entries are kept so that later cuts remain meaningful).
-func Rebuild(journal []Entry, n int) *Store {
-	s := New()
-	for _, e := range journal[:n] {
-		switch e.Op {
-		case "put":
-			s.m[e.Key] = append([]byte(nil), e.Value...)
-		case "delete":
-			delete(s.m, e.Key)
-		}
-	}
-	return s
-}
+// JournalLen is the number of journal entries of the group so far.
+func (s *Store) JournalLen() int { return s.g.JournalLen() }
 
 // Clone copies the current contents into a fresh store (no hook, empty journal).
 func (s *Store) Clone() *Store {
